@@ -94,6 +94,154 @@ STREAMS = {
     ),
 }
 
+def reader_key(req, ans):
+    t = ans.split(" ")
+    errs = [x for x in t if x.startswith("E:")]
+    return "ops=%d %s" % (len(req.split(" ")) - 2, re.sub(r"\(.*", "", errs[0]) if errs else ("P" if "P" in t else "ok"))
+
+
+def reader_oracle(req, ans):
+    c = crash_oracle(req, ans)
+    if c:
+        return c
+    t = ans.split(" ")
+    if "UB" in t or "slice-outside-message" in t:
+        return "undefined behaviour / slice outside the message"
+    return None
+
+
+def reader_oracle_conf(req, ans):
+    """documented-order histories: a panic token is a violation too"""
+    c = reader_oracle(req, ans)
+    if c:
+        return c
+    if "P" in ans.split(" "):
+        return "the implementation panicked on a protocol-conforming history"
+    return None
+
+
+def purity_oracle(req, ans):
+    c = reader_oracle(req, ans)
+    if c:
+        return c
+    if "IMPURE!" in ans:
+        return "marker-based random access depends on the reader's state: " + \
+            [x for x in ans.split(" ") if x.startswith("IMPURE!")][0][:160]
+    return None
+
+
+def proj_tokens_ok_exact(req, ans):
+    """per output token: values exact, errors reduced to the fact"""
+    return " ".join(("E" if x.startswith("E:") else x) for x in ans.split(" "))
+
+
+def roundtrip_oracle(req, ans):
+    c = crash_oracle(req, ans)
+    if c:
+        return c
+    if ans in ("heap-inline-disagree",):
+        return "the two name types decode the same wire name differently"
+    rt = req.split(" ")
+    a = ans.split(" ")
+    if rt[0] == "rt":
+        if a[0] == "ok":
+            want = ["heap=ok", "inline=ok", "check=ok", "same=true"]
+            if a[2:] != want:
+                return "a decoded name does not re-parse to an equal name: " + " ".join(a[2:])[:160]
+        return None
+    if rt[0] == "enc":
+        s_hex = rt[1]
+        fields = dict(x.split("=", 1) for x in a[1:] if "=" in x)
+        parse, chk = fields.get("parse"), fields.get("check")
+        if a[0] == "ok":
+            n = int(a[1])
+            raw = b"" if s_hex == "-" else bytes.fromhex(s_hex)
+            canon = raw if raw.endswith(b".") else raw + b"."
+            if parse not in ("11", "--") or chk != "1":
+                return "the encoder accepts a name the parsers/validator reject (parse=%s check=%s)" % (parse, chk)
+            if n > 255:
+                return "encoded name longer than 255 octets"
+            dec = fields.get("dec", "")
+            if dec.startswith("!") or bytes.fromhex(dec if dec != "-" else "") != canon:
+                return "decode(encode(name)) is not the canonical spelling: " + dec[:80]
+            if fields.get("next") != str(n):
+                return "decoding does not consume exactly the encoded bytes"
+        elif a[0] == "err":
+            if parse == "11" or parse in ("10", "01") or chk == "1":
+                return "the encoder rejects a name a parser/validator accepts (parse=%s check=%s)" % (parse, chk)
+        return None
+    return None
+
+
+STREAMS.update({
+    "roundtrip": dict(
+        kinds=["rt", "enc"], quick=30000, thorough=800000,
+        canon=ident, proj=proj_kind, impl_oracle=roundtrip_oracle,
+        nontrivial=lambda req, ans: hexlen(req.split(" ")[-1]) >= 2,
+        outcome_key=lambda req, ans: req.split(" ")[0] + ":" + kind_of(ans),
+    ),
+    "xmark": dict(
+        kinds=["xmark"], quick=15000, thorough=500000,
+        canon=ident, proj=proj_tokens_ok_exact, impl_oracle=reader_oracle,
+        nontrivial=lambda req, ans: len(ans.split(" ")) >= 2,
+        outcome_key=reader_key,
+    ),
+    "rdata": dict(
+        kinds=["rdata"], quick=30000, thorough=1000000,
+        canon=ident, proj=proj_ok_exact_err_any, impl_oracle=crash_oracle,
+        nontrivial=lambda req, ans: not ans.startswith("err EndOfBuffer"),
+        outcome_key=lambda req, ans: req.split(" ")[1] + ":" + kind_of(ans),
+    ),
+    "reader": dict(
+        kinds=["reader"], quick=20000, thorough=600000,
+        canon=ident, proj=proj_tokens_ok_exact, impl_oracle=reader_oracle_conf,
+        nontrivial=lambda req, ans: len(ans.split(" ")) >= 3,
+        outcome_key=reader_key,
+    ),
+    "readerx": dict(
+        kinds=["reader"], quick=20000, thorough=600000,
+        canon=ident, proj=proj_tokens_ok_exact, impl_oracle=reader_oracle,
+        nontrivial=lambda req, ans: len(ans.split(" ")) >= 3,
+        outcome_key=reader_key,
+    ),
+    "iter": dict(
+        kinds=["iter"], quick=15000, thorough=500000,
+        canon=ident, proj=lambda req, ans: re.sub(r"E:[A-Za-z]+(\([^)]*\))?", "E", ans), impl_oracle=crash_oracle,
+        nontrivial=lambda req, ans: ans.startswith("H:") and len(ans) > 40,
+        outcome_key=lambda req, ans: "iter:" + ("err" if ans.startswith("err") else ("E" if "E:" in ans else "ok")),
+    ),
+    "rrset": dict(
+        kinds=["rrset"], quick=15000, thorough=500000,
+        canon=ident, proj=proj_kind, impl_oracle=crash_oracle,
+        nontrivial=lambda req, ans: not ans.startswith("err EndOfBuffer"),
+        outcome_key=lambda req, ans: req.split(" ")[1] + ":" + kind_of(ans),
+    ),
+    "nameeq": dict(
+        kinds=["nameeq"], quick=20000, thorough=800000,
+        canon=ident, proj=proj_ok_exact_err_any, impl_oracle=crash_oracle,
+        nontrivial=lambda req, ans: not ans.startswith("err EndOfBuffer"),
+        outcome_key=lambda req, ans: kind_of(ans) + (":" + ans.split(" ")[1] if ans.startswith("ok") else ""),
+    ),
+    "text": dict(
+        kinds=["check", "checklabel", "parse", "wname"], quick=30000, thorough=800000,
+        canon=ident, proj=proj_kind, impl_oracle=crash_oracle,
+        nontrivial=lambda req, ans: hexlen(req.split(" ")[-1]) >= 2,
+        outcome_key=lambda req, ans: req.split(" ")[0] + ":" + kind_of(ans),
+    ),
+    "cmp": dict(
+        kinds=["cmp", "eqstr"], quick=30000, thorough=800000,
+        canon=ident, proj=lambda req, ans: ans, impl_oracle=crash_oracle,
+        nontrivial=lambda req, ans: ans != "badname",
+        outcome_key=lambda req, ans: req.split(" ")[0] + ":" + ans.split(" ")[0] + ":" + (ans.split(" ")[1] if " " in ans else ""),
+    ),
+    "query": dict(
+        kinds=["query"], quick=20000, thorough=500000,
+        canon=ident, proj=proj_ok_exact_err_any, impl_oracle=crash_oracle,
+        nontrivial=lambda req, ans: hexlen(req.split(" ")[-1]) >= 1,
+        outcome_key=lambda req, ans: kind_of(ans),
+    ),
+})
+
 TRUSTED_BASE = [
     "Lean 4.33.0 kernel (thorough tier: leanchecker re-checks the .olean independently)",
     "axioms: at most propext, Classical.choice, Quot.sound (audited per theorem on every run with #print axioms); no sorry/admit/own axioms/native_decide/bv_decide",
@@ -109,10 +257,74 @@ DEFAULT_RULE = ("cases are generated from one SplitMix64 state per (stream, seed
                 "(buffer ≥ 2 bytes and the outcome is not EndOfBuffer at the first byte)")
 
 HOOK_COMMITS = ["7a8c9dd"]
+FIX_COMMITS = ["67bcb4a", "e9d4c57", "08bccf3"]
 
 NOT_APPLICABLE = {}
 
 PROPS = {
+    "C01": dict(
+        level="proof", module="Rsdns.Props.C01",
+        technique="Lean 4 theorems (no panic / no out-of-buffer access for every decoding entry point, well-founded termination, step bound) + differential correspondence with crash/guard-page oracles",
+        level_text="Theorems over the Lean model for all byte strings: names (read/skip/iterate), NameRef::eq, all 17 RDATA decoders "
+                   "return a value or an error from any in-buffer cursor; every MessageReader call history is free of out-of-buffer access; "
+                   "termination by well-founded recursion with an explicit step bound. Correspondence on six decode streams with the "
+                   "checked build profile, guard pages and a watchdog as implementation-side oracles.",
+        level_note="Trusted: Lean kernel; hand-written model (validated by correspondence each run); harness oracles (abort = unsafe "
+                   "precondition / SIGSEGV at a guard page; watchdog). Not modelled: allocator failure, stack depth.",
+        streams=[dict(name="name", quick=15000), dict(name="rdata", quick=15000), dict(name="reader", quick=12000),
+                 dict(name="iter", quick=8000), dict(name="rrset", quick=8000), dict(name="nameeq", quick=8000)],
+        explanation="C01: safety theorems + six correspondence streams; any panic/abort/timeout/out-of-message slice of the "
+                    "implementation is a violation independent of the model.",
+    ),
+    "C04": dict(
+        level="proof", module="Rsdns.Props.C04",
+        technique="Lean 4 theorems (RDLENGTH exactness for all 17 decoders, raw access, next-record position) + differential correspondence",
+        level_text="For every message, cursor and announced RDLENGTH: a successful typed read consumed exactly RDLENGTH bytes and "
+                   "closed its window; raw access returns exactly msg[p..p+rdlen); the next header starts right after. "
+                   "Correspondence: every type with RDLENGTH off by -3..+3 and parseable neighbours.",
+        level_note="Trusted: Lean kernel; model of cursor.rs window discipline and rfc1035.rs/rfc3596.rs decoders (validated by the "
+                   "`rdata` and `reader` streams each run).",
+        streams=[dict(name="rdata"), dict(name="reader", quick=8000)],
+        explanation="C04: rdata_exact / raw_exact / next_after_data theorems; stream `rdata` drives read_rr_data::<D> for the 17 D "
+                    "through the hook with RDLENGTH deltas.",
+    ),
+    "C05": dict(
+        level="proof", module="Rsdns.Props.C05",
+        technique="Lean 4 theorems (parsers/validator agreement and totality, decoded-name length bound) + round-trip oracle on real code",
+        level_text="Proved for all strings: both parsers accept exactly what check_name_bytes accepts, never panic, and yield the "
+                   "canonical spelling; every decoded name has wire length ≤ 255 and valid labels. The encoder/decoder round-trip "
+                   "and the encoder-vs-parser agreement are decided on the implementation by the `roundtrip` oracle (impl vs spec) "
+                   "and tied to the model by correspondence; their Lean statements are kept in Props/C05.lean as open items.",
+        level_note="PARTIAL proof: encode_decode and the encoder half of parse_agree are not yet theorems (see Props/C05.lean header). "
+                   "Trusted: Lean kernel; model of utils.rs/writer.rs/name.rs/inline_name.rs validated by `text` and `roundtrip` streams.",
+        streams=[dict(name="roundtrip"), dict(name="text", quick=20000), dict(name="name", quick=10000)],
+        explanation="C05: parse_agree / check_total / decoded_len theorems; oracle: decode→re-parse must succeed with an equal name, "
+                    "encode→decode must return the canonical spelling within 255 octets, encoder and parsers must accept the same strings.",
+    ),
+    "C10": dict(
+        level="proof", module="Rsdns.Props.C10",
+        technique="Lean 4 invariant proof over all call histories (full view = whole message) + purity oracle against a fresh reader",
+        level_text="Invariant by induction over arbitrary call histories: the reader cursor's full view is the whole message, hence "
+                   "record_data_at / record_data_bytes_at / name_ref_at equal the decoder run on a fresh cursor — also in the error "
+                   "state with a window left open. Harness oracle: every *_at result is compared with a fresh reader's.",
+        level_note="Trusted: Lean kernel; model of MessageReader (validated by `reader` correspondence); the purity oracle is "
+                   "independent of the model.",
+        streams=[dict(name="reader", impl_oracle=purity_oracle), dict(name="readerx", quick=10000, impl_oracle=purity_oracle)],
+        explanation="C10: at_closed_form / at_pure theorems over Reach; oracle `IMPURE!` in the harness.",
+    ),
+    "C17": dict(
+        level="proof", module="Rsdns.Props.C17",
+        technique="Lean 4 theorems (no UB for arbitrary call histories with arbitrary markers; cursor primitives from any position) + checked-build / guard-page oracles",
+        level_text="No protocol hypothesis: every list of public MessageReader calls with arbitrary markers is free of the model's `ub` "
+                   "outcome (an unchecked access whose precondition fails); cursor primitives, name readers, NameRef::eq across two "
+                   "messages and read_rr_data are safe from any position. Implementation-side: checked build (std unsafe-precondition "
+                   "checks abort), guard pages, returned-slice range check.",
+        level_note="Panics at documented debug assertions and checked counter arithmetic are allowed by this property and by the "
+                   "theorem (`noUB`). Trusted: Lean kernel; model of every unchecked site in cursor.rs/macros.rs/utils.rs.",
+        streams=[dict(name="readerx"), dict(name="xmark"), dict(name="reader", quick=8000, impl_oracle=reader_oracle),
+                 dict(name="rdata", quick=10000), dict(name="nameeq", quick=6000)],
+        explanation="C17: api_no_ub and companions; `readerx` = arbitrary call orders with stale markers.",
+    ),
     "C03": dict(
         level="proof", module="Rsdns.Props.C03",
         technique="Lean 4 theorems (soundness vs RFC 1035 §4.1.4 expansion, rejection, completeness) + differential correspondence",
